@@ -111,6 +111,9 @@ func genC20(e *emitter, tier string, seed int64) {
 		{"a.p": "x = [1, 2\n"},
 		{"a.p": "add_key(big, 9007199254740993)\nadd_key(fl, 1.5)\nadd_key(b, true)\nadd_key(s, \"q\\\"uote<>&\")\nadd_key(nl, nil)\nadd_key(lst, [1, \"a\"])\n"},
 		{"a.p": "use(\"missing.p\")\n"},
+		// the point is left without any field; only tags remain
+		{"a.p": "drop_key(message)\ndrop_key(usage)\ndrop_key(n)\ndrop_key(ok)\ndrop_key(s)\n"},
+		{"a.p": "set_tag(only, \"t\")\ndrop_key(message)\n"},
 		{"a.p": "for x in [1, 2, 3] {\n  add_key(last, x)\n}\nif last == 3 {\n  set_measurement(\"three\")\n}\n"},
 	}
 	inputs := []struct{ typ, data string }{
@@ -188,6 +191,13 @@ func genC20(e *emitter, tier string, seed int64) {
 		e.stat("cli:" + map[bool]string{true: "single", false: "workspace"}[single] + ":" + outType)
 		e.emit(map[string]any{"k": "cli", "gen": "cli", "key": fmt.Sprintf("%v | %s %q | single=%v noinput=%v out=%s", names, in.typ, in.data, single, noInput, outType),
 			"files": set, "input": in.data, "type": in.typ, "out_type": outType, "single": single, "noinput": noInput,
-			"exit": exit, "crashed": strings.Contains(se.String(), "panic:") || strings.Contains(se.String(), "goroutine "), "stderr_tail": tail(se.String(), 400), "printed": printed, "stdout_tail": tail(stdout, 600), "lib": want, "lib_err": werr})
+			"exit": exit, "crashed": strings.Contains(se.String(), "panic:") || strings.Contains(se.String(), "goroutine "), "stderr_tail": tail(se.String(), 400), "stderr_head": head(se.String(), 900), "printed": printed, "stdout_tail": tail(stdout, 600), "lib": want, "lib_err": werr})
 	}
+}
+
+func head(s string, n int) string {
+	if len(s) > n {
+		return s[:n]
+	}
+	return s
 }
